@@ -424,7 +424,7 @@ Definition apply_oracles (gone : string -> bool) (vers : list string) (ign : str
                            let dangling := filter (fun p => negb (pmem p inherited)) (dangling_paths s tr res m) in
                            let empty_in_cfg (p : path) :=
                              match resolve_path s tr cfg p with
-                             | Some (RNode _ (VMap [])) | Some (RNode _ (VList [])) => true
+                             | Some (RNode _ (VMap [])) | Some (RNode _ (VList [])) | Some (RNode _ VNull) => true
                              | _ => false
                              end in
                            match dangling with
@@ -433,7 +433,7 @@ Definition apply_oracles (gone : string -> bool) (vers : list string) (ign : str
                                   && forallb (fun p => pmem p (record_paths m mgr)) dangling
                                then
                                  filter (fun x => negb (prefix "prop C06 every owned path" x)) (inv_msgs_from s tr inherited res m) @@
-                                 ["prop C06 an empty map or list of the configuration, laid over content the applier abandons, is owned but absent from the result: " ++ show_sexp (enc_paths dangling)]
+                                 ["prop C06 a null or an empty map or list of the configuration, laid over content the applier abandons, is owned but absent from the result: " ++ show_sexp (enc_paths dangling)]
                                else inv_msgs_from s tr inherited res m
                            | [] => inv_msgs_from s tr inherited res m
                            end
